@@ -105,7 +105,12 @@ ValidArgs(lp, a, g) ==
 
 -----------------------------------------------------------------------------
 \* C07: the floating-point LP is the coefficient-wise image of the rational LP
-NumImage(q, r) == IF BRIsFinite(q) /\ BRIsFinite(r) THEN BRAdjacentDouble(q, r) ELSE q = r
+\* a finite rational whose double image reaches the infinity threshold 1e100 is infinite in the floating-point LP
+TenPow100 == BRPow10(100)
+NumImage(q, r) == IF BRIsFinite(q) /\ BRIsFinite(r) THEN BRAdjacentDouble(q, r)
+                  ELSE IF BRIsFinite(q) /\ r = "inf" THEN BRLeq(BRMul(TenPow100, "4503599627370495/4503599627370496"), q)
+                  ELSE IF BRIsFinite(q) /\ r = "-inf" THEN BRLeq(q, BRNeg(BRMul(TenPow100, "4503599627370495/4503599627370496")))
+                  ELSE q = r
 SeqImage(qs, rs) == Len(qs) = Len(rs) /\ \A k \in 1..Len(qs) : NumImage(qs[k], rs[k])
 \* matrix coefficients: changeElementReal drops values with |v| <= epsilon_zero (1e-16); deliberate deviation of the code
 CoefImage(q, r) == NumImage(q, r) \/ (r = "0" /\ BRLeq(BRAbs(q), "1/10000000000000000"))
